@@ -58,6 +58,8 @@ func suiteConc(seed uint64, n int, work string, withMerge bool) {
 			mu   sync.Mutex
 			fin  int64
 			errs []string
+			npad     int
+			premerge string
 		}
 		runs := make([]*dbrun, ndb)
 		deadline := time.After(20 * time.Second)
@@ -74,8 +76,30 @@ func suiteConc(seed uint64, n int, work string, withMerge bool) {
 				continue
 			}
 			dr.db = db
-			// seed state: seq = 0
-			db.Update(func(tx *nutsdb.Tx) error { return tx.Put("m", []byte("seq"), itob(0), 0) })
+			// seed state: seq = 0, and a key that expired long ago (a read of it must not write shared state)
+			db.Update(func(tx *nutsdb.Tx) error {
+				if err := tx.Put("m", []byte("seq"), itob(0), 0); err != nil {
+					return err
+				}
+				return tx.PutWithTimestamp("m", []byte("exp"), []byte("old"), 1, 1000)
+			})
+			// half of the plain runs: a successful Merge on this handle before the goroutines start
+			// (the lock protocol must survive it); needs two segments of key/value data
+			dr.premerge = ""
+			if !withMerge && r.Chance(1, 2) {
+				for k := 0; k < 4; k++ {
+					kk := k
+					db.Update(func(tx *nutsdb.Tx) error {
+						return tx.PutWithTimestamp("m", []byte(fmt.Sprintf("pad%d", kk)), make([]byte, seg/3), 0, 1700000000)
+					})
+				}
+				dr.npad = 4
+				if err := db.Merge(); err == nil {
+					dr.premerge = "ok"
+				} else {
+					dr.premerge = "err"
+				}
+			}
 			ng := 4 + r.Intn(13)
 			for g := 0; g < ng; g++ {
 				gr := r.Fork()
@@ -130,6 +154,11 @@ func suiteConc(seed uint64, n int, work string, withMerge bool) {
 							}
 							if !c.write {
 								rd()
+								if _, xerr := tx.Get("m", []byte("exp")); xerr == nil {
+									c.lines = append(c.lines, fmt.Sprintf("get %s %s = entry ? ?", hx([]byte("m")), hx([]byte("exp"))))
+								} else {
+									c.lines = append(c.lines, fmt.Sprintf("get %s %s = err", hx([]byte("m")), hx([]byte("exp"))))
+								}
 								return nil
 							}
 							nv := itob(v + 1)
@@ -229,10 +258,20 @@ func suiteConc(seed uint64, n int, work string, withMerge bool) {
 			}
 			// the serial trace, replayed by the model and the specification
 			emit("reset = -")
+			emit("now %d = -", time.Now().Unix())
 			emit("%s = ok", open)
 			emit("begin w 1 = ok")
 			emit("put %s %s %s 0 %d = ok", hx([]byte("m")), hx([]byte("seq")), hx(itob(0)), 1700000000)
+			emit("put %s %s %s 1 1000 = ok", hx([]byte("m")), hx([]byte("exp")), hx([]byte("old")))
 			emit("commit = ok")
+			for k := 0; k < dr.npad; k++ {
+				emit("begin w %d = ok", 2+k)
+				emit("put %s %s %s 0 1700000000 = ok", hx([]byte("m")), hx([]byte(fmt.Sprintf("pad%d", k))), hx(make([]byte, splitOpts(open)[4]/3)))
+				emit("commit = ok")
+			}
+			if dr.premerge != "" {
+				emit("merge = %s", dr.premerge)
+			}
 			ri := 0
 			sort.Slice(rs, func(i, j int) bool { return rs[i].pos < rs[j].pos })
 			flushReaders := func(upto int) {
@@ -309,11 +348,24 @@ func suiteBackup(seed uint64, n int, work string) {
 	for i := 0; i < n; i++ {
 		r := root.Fork()
 		seg := []int{150, 200, 400}[r.Intn(3)]
+		// variants: 0 = mixed workload; 1 = no lists, a successful Merge on the same handle before the
+		// backup (the lock protocol must survive it); 2 = key/value heavy, more than ten segments
+		variant := i % 3
+		pv := p
+		if variant == 1 {
+			pv.WList = 0
+			pv.Txs = 10
+		}
+		if variant == 2 {
+			pv.WKV, pv.WList, pv.WSet, pv.WZSet = 6, 0, 1, 1
+			pv.Txs = 40
+			seg = 150
+		}
 		open := optLine(r.Intn(2), r.Intn(2), r.Intn(2), r.Intn(2), seg)
-		emit("#H %d %s backup", i, open)
+		emit("#H %d %s backup variant=%d", i, open, variant)
 		st.run("reset")
 		st.run(open)
-		for _, c := range genHistory(r, p, seg) {
+		for _, c := range genHistory(r, pv, seg) {
 			if c == "reopen" {
 				continue
 			}
@@ -321,6 +373,9 @@ func suiteBackup(seed uint64, n int, work string) {
 		}
 		if st.dead || st.db == nil {
 			continue
+		}
+		if variant == 1 {
+			st.run("merge")
 		}
 		obs := obsCalls(p)
 		var before []string
@@ -380,11 +435,24 @@ func suiteBackup(seed uint64, n int, work string) {
 		if st2.run(open) != "ok" {
 			emit("#SPEC open-failed on the backup copy (%s)", open)
 		} else {
-			for k, c := range obs {
-				if a := st2.run(c); a != before[k] {
-					emit("#SPEC backup copy differs from the state when Backup started: %q backup=%q source=%q", c, a, before[k])
-					break
+			var after []string
+			for _, c := range obs {
+				after = append(after, st2.run(c))
+			}
+			nk, real := diffClass(after, before, obs)
+			if variant != 1 && real == "" && nk > 0 {
+				// without a Merge an empty structure keeps its existence across a reopen
+				for k := range obs {
+					if after[k] != before[k] {
+						real = fmt.Sprintf("call %q backup=%q source=%q", obs[k], after[k], before[k])
+						break
+					}
 				}
+			}
+			if real != "" {
+				emit("#SPEC backup copy differs from the state when Backup started: %s", real)
+			} else if nk > 0 {
+				emit("#KNOWN F30 the backup of a merged database: %d empty structures answer 'not found' in the copy", nk)
 			}
 			st2.closeQuiet()
 		}
